@@ -29,6 +29,7 @@ import ElfioVerif.Lemmas.RoundTrip
 import ElfioVerif.Props.C06
 import ElfioVerif.Props.C20
 import ElfioVerif.Props.C17
+import ElfioVerif.Props.C03Compose
 namespace ElfioVerif.Compose
 open ElfioVerif Gen Sv RoundTrip
 
@@ -74,39 +75,85 @@ theorem reload_reports_saved {o : Obj} {os : OStream} {r : SaveRes} {hd : Bytes}
   rw [ec, ee] at H
   exact reload_of_holds H hiF ok o2 k isLazy htr2
 
-/-! ### objects without segments / with flat segments : `SavedSane` discharged -/
+/-! ### objects without segments / with flat segments : hypotheses on the input object only
 
-/-- **reload_reports_saved_noseg** : objects without segments.  Of `SavedSane` only "no section range
-    reaches 2^64" remains (`SavedNoWrap`; the segment clauses are vacuous). -/
+With `C03.layoutOk_of_save` (C04's disjointness ⇒ `C03.LayoutOk`), `C03.save_segFit`, `savedSane_noseg` /
+`savedSane_flat` every hypothesis about the *saved* object is discharged except "no address / offset
+range of the saved object reaches 2^64" (`NoWrap64`; automatic in ELF32). -/
+
+/-- decidable hypotheses on the object to be saved (`C03.SaveDomain` + `SaveInput`) -/
+structure ComposeDomain (o : Obj) (hd : Bytes) : Prop where
+  hdr : o.hdr = some hd
+  tr : o.trans = []
+  input : SaveInput o hd
+  nw : layoutNW (preSave o) hd = true
+  small : C03.fileSmallB o hd = true
+  segFit : ∀ g ∈ o.segs, C03.SegFit o.cls g
+
+/-- no address / offset range of the saved object reaches 2^64 (decidable; trivial in ELF32) -/
+structure NoWrap64 (secs : List SecBuf) (segs : List Seg) : Prop where
+  sec : ∀ b ∈ secs, b.addr.toNat + b.size.toNat < 18446744073709551616 ∧
+    b.offset.toNat + b.size.toNat < 18446744073709551616
+  seg : ∀ g ∈ segs, g.vaddr.toNat + g.memsz.toNat < 18446744073709551616 ∧
+    g.offset.toNat + g.filesz.toNat < 18446744073709551616
+
+theorem ComposeDomain.tables {o : Obj} {hd : Bytes} (D : ComposeDomain o hd) : C03.TablesOk o hd :=
+  ⟨D.input.ident.len, D.input.ehsize, D.input.shentsize, D.input.phentsize, D.input.nsegs,
+   idx_of_B _ _ D.input.segIdx, idx_of_B _ _ D.input.secIdx⟩
+
+/-- the writer side of the composition, from hypotheses on the input object: header of the saved
+    object, `C03.LayoutOk` (C04), the size assumption, segment fields fit -/
+theorem ComposeDomain.writer {o : Obj} {os : OStream} {r : SaveRes} {hd : Bytes} (D : ComposeDomain o hd)
+    (hs : save o os = .ok r) (hok : r.ok = true) (hos : os.content.length < 9223372036854775808)
+    (hw : NoWrap64 r.obj.secs r.obj.segs) :
+    ∃ hF, r.obj.hdr = some hF ∧ C03.LayoutOk r.obj.cls r.obj.enc hF r.obj.secs r.obj.segs ∧
+      FileSmall o hd os r.obj.curPos ∧ SavedNoWrap o.cls r.obj.secs r.obj.segs := by
+  obtain ⟨hF, hhF, -, hl⟩ := C03.layoutOk_of_save hs hok D.hdr D.input.nsecs D.input.h0 D.nw D.tables D.small
+  have hsf := C03.save_segFit hs hok D.hdr D.input.nsecs D.input.h0 D.nw
+    (C03.nodup_of_segIdx (idx_of_B _ _ D.input.segIdx)) D.input.fit D.segFit
+  obtain ⟨res, hlay, -, hcur, -⟩ := C04.save_secs_hdr o os r hd hs hok D.hdr
+  have hsm := D.small
+  unfold C03.fileSmallB at hsm
+  rw [hlay] at hsm
+  simp only [Bool.and_eq_true, decide_eq_true_eq] at hsm
+  rw [← hcur] at hsm
+  exact ⟨hF, hhF, hl, ⟨hsm.1, hsm.2, hos⟩, ⟨hw.sec, hsf, hw.seg⟩⟩
+
+/-- **reload_reports_saved_noseg** : objects without segments — hypotheses on the input object
+    (`ComposeDomain`), on the stream written to, and `NoWrap64` of the saved sections. -/
 theorem reload_reports_saved_noseg {o : Obj} {os : OStream} {r : SaveRes} {hd : Bytes}
-    (hs : save o os = .ok r) (hok : r.ok = true) (hg : os.Good) (htr : o.trans = [])
-    (hh : o.hdr = some hd) (hin : SaveInput o hd) (hseg : o.segs = [])
-    (hnw : layoutNW (preSave o) hd = true) (hsm : FileSmall o hd os r.obj.curPos)
-    {hF : Bytes} (hhF : r.obj.hdr = some hF)
-    (hl : C03.LayoutOk r.obj.cls r.obj.enc hF r.obj.secs r.obj.segs)
-    (hnwrap : SavedNoWrap o.cls r.obj.secs r.obj.segs)
+    (hs : save o os = .ok r) (hok : r.ok = true) (hg : os.Good) (hos : os.content.length < 9223372036854775808)
+    (D : ComposeDomain o hd) (hseg : o.segs = []) (hw : NoWrap64 r.obj.secs r.obj.segs)
     (o2 : Obj) (k : StreamKind) (isLazy : Bool) (htr2 : o2.trans = []) :
-    ∃ r2 : LoadRes, load o2 { data := r.os.content, kind := k } isLazy = .ok r2 ∧ r2.ok = true ∧
-      Reloaded o.cls o.enc hF r.obj.secs r.obj.segs r.os.content isLazy r2.obj :=
-  reload_reports_saved hs hok hg htr hh hin hnw hsm hhF hl (savedSane_noseg hs hok hseg hnwrap) o2 k isLazy htr2
+    ∃ (hF : Bytes) (r2 : LoadRes), r.obj.hdr = some hF ∧
+      load o2 { data := r.os.content, kind := k } isLazy = .ok r2 ∧ r2.ok = true ∧
+      Reloaded o.cls o.enc hF r.obj.secs r.obj.segs r.os.content isLazy r2.obj := by
+  obtain ⟨hF, hhF, hl, hsm, hnwrap⟩ := D.writer hs hok hos hw
+  obtain ⟨r2, h1, h2, h3⟩ := reload_reports_saved hs hok hg D.tr D.hdr D.input D.nw hsm hhF hl
+    (savedSane_noseg hs hok hseg hnwrap) o2 k isLazy htr2
+  exact ⟨hF, r2, hhF, h1, h2, h3⟩
 
-/-- **reload_reports_saved_flat** : objects whose segments are all flat (laid out as fresh runs of
-    members, `layoutDomB false false (fun _ => true)`; none is the member-less PT_PHDR case): the
-    segments' file ranges lie inside the file by `layoutSegment_flat`. -/
+/-- the additional hypotheses for objects with (flat) segments: every segment is laid out as a fresh
+    run of members under the writer-domain side conditions, none is the member-less PT_PHDR case;
+    SHT_NULL-typed sections are empty -/
+structure FlatDomain (o : Obj) (hd : Bytes) : Prop extends ComposeDomain o hd where
+  dom : layoutDomB false false (fun _ => true) (preSave o) hd = true
+  noPhdr : ∀ g ∈ o.segs, lseg_is_phdr g.stype (BitVec.ofNat 16 g.secs.length) = false
+  null0 : ∀ s ∈ o.secs, s.stype = BitVec.ofNat 32 SHT_NULL → s.size = 0
+
+/-- **reload_reports_saved_flat** : objects whose segments are all flat: the segments' file ranges lie
+    inside the file by `layoutSegment_flat`; everything else as in the segment-less case. -/
 theorem reload_reports_saved_flat {o : Obj} {os : OStream} {r : SaveRes} {hd : Bytes}
-    (hs : save o os = .ok r) (hok : r.ok = true) (hg : os.Good) (htr : o.trans = [])
-    (hh : o.hdr = some hd) (hin : SaveInput o hd)
-    (hnw : layoutNW (preSave o) hd = true) (hsm : FileSmall o hd os r.obj.curPos)
-    (hdom : layoutDomB false false (fun _ => true) (preSave o) hd = true)
-    (hph : ∀ g ∈ o.segs, lseg_is_phdr g.stype (BitVec.ofNat 16 g.secs.length) = false)
-    {hF : Bytes} (hhF : r.obj.hdr = some hF)
-    (hl : C03.LayoutOk r.obj.cls r.obj.enc hF r.obj.secs r.obj.segs)
-    (hnwrap : SavedNoWrap o.cls r.obj.secs r.obj.segs)
+    (hs : save o os = .ok r) (hok : r.ok = true) (hg : os.Good) (hos : os.content.length < 9223372036854775808)
+    (D : FlatDomain o hd) (hw : NoWrap64 r.obj.secs r.obj.segs)
     (o2 : Obj) (k : StreamKind) (isLazy : Bool) (htr2 : o2.trans = []) :
-    ∃ r2 : LoadRes, load o2 { data := r.os.content, kind := k } isLazy = .ok r2 ∧ r2.ok = true ∧
-      Reloaded o.cls o.enc hF r.obj.secs r.obj.segs r.os.content isLazy r2.obj :=
-  reload_reports_saved hs hok hg htr hh hin hnw hsm hhF hl
-    (savedSane_flat hs hok hh hin hnw hdom hph hnwrap) o2 k isLazy htr2
+    ∃ (hF : Bytes) (r2 : LoadRes), r.obj.hdr = some hF ∧
+      load o2 { data := r.os.content, kind := k } isLazy = .ok r2 ∧ r2.ok = true ∧
+      Reloaded o.cls o.enc hF r.obj.secs r.obj.segs r.os.content isLazy r2.obj := by
+  obtain ⟨hF, hhF, hl, hsm, hnwrap⟩ := D.toComposeDomain.writer hs hok hos hw
+  obtain ⟨r2, h1, h2, h3⟩ := reload_reports_saved hs hok hg D.tr D.hdr D.input D.nw hsm hhF hl
+    (savedSane_flat hs hok D.hdr D.input D.nw D.dom D.noPhdr hnwrap) o2 k isLazy htr2
+  exact ⟨hF, r2, hhF, h1, h2, h3⟩
 
 /-! ### 2. C20 : `validate` on the reloaded object -/
 
@@ -170,23 +217,22 @@ theorem validate_silent_reloaded_unconditional {o : Obj} {os : OStream} {r : Sav
   exact ⟨r2, hload, hok2, C20.validate_silent_reloaded o os r hd r2.obj hs hok hh hin.nsecs hin.h0 hnull0 hnw
     (nodup_of_idx (idx_of_B _ _ hin.segIdx)) sel hdom hsel hk1 hk2⟩
 
-/-- flat segments (every segment selected): `SavedSane.segInside` from `layoutSegment_flat` -/
+/-- **validate_silent_reloaded_flat** (C20) : flat writer-domain objects, hypotheses on the input object
+    only (plus `NoWrap64` of the saved object): `save`, then the model's `load` of the bytes (eager or
+    lazy), then `validate` — no complaint. -/
 theorem validate_silent_reloaded_flat {o : Obj} {os : OStream} {r : SaveRes} {hd : Bytes}
-    (hs : save o os = .ok r) (hok : r.ok = true) (hg : os.Good) (htr : o.trans = [])
-    (hh : o.hdr = some hd) (hin : SaveInput o hd) (hnw : layoutNW (preSave o) hd = true)
-    (hsm : FileSmall o hd os r.obj.curPos)
-    (hdom : layoutDomB false false (fun _ => true) (preSave o) hd = true)
-    (hph : ∀ g ∈ o.segs, lseg_is_phdr g.stype (BitVec.ofNat 16 g.secs.length) = false)
-    {hF : Bytes} (hhF : r.obj.hdr = some hF)
-    (hl : C03.LayoutOk r.obj.cls r.obj.enc hF r.obj.secs r.obj.segs)
-    (hnwrap : SavedNoWrap o.cls r.obj.secs r.obj.segs)
-    (hnull0 : ∀ s ∈ o.secs, s.stype = BitVec.ofNat 32 SHT_NULL → s.size = 0)
+    (hs : save o os = .ok r) (hok : r.ok = true) (hg : os.Good) (hos : os.content.length < 9223372036854775808)
+    (D : FlatDomain o hd) (hw : NoWrap64 r.obj.secs r.obj.segs)
     (o2 : Obj) (k : StreamKind) (isLazy : Bool) (htr2 : o2.trans = []) :
+    validate r.obj = [] ∧
     ∃ r2 : LoadRes, load o2 { data := r.os.content, kind := k } isLazy = .ok r2 ∧ r2.ok = true ∧
-      validate r2.obj = [] :=
-  validate_silent_reloaded_unconditional hs hok hg htr hh hin hnw hsm hhF hl
-    (savedSane_flat hs hok hh hin hnw hdom hph hnwrap) hnull0 (fun _ => true) hdom (fun _ _ _ _ => rfl)
-    o2 k isLazy htr2
+      validate r2.obj = [] := by
+  obtain ⟨hF, hhF, hl, hsm, hnwrap⟩ := D.toComposeDomain.writer hs hok hos hw
+  refine ⟨C20.validate_silent_save o os r hd hs hok D.hdr D.input.nsecs D.input.h0 D.null0 D.nw
+    (nodup_of_idx (idx_of_B _ _ D.input.segIdx)) (fun _ => true) D.dom (fun _ _ _ _ => rfl), ?_⟩
+  exact validate_silent_reloaded_unconditional hs hok hg D.tr D.hdr D.input D.nw hsm hhF hl
+    (savedSane_flat hs hok D.hdr D.input D.nw D.dom D.noPhdr hnwrap) D.null0 (fun _ => true) D.dom
+    (fun _ _ _ _ => rfl) o2 k isLazy htr2
 
 /-! ### 3. C05 : the model's `load` of writer output satisfies `Loaded` -/
 
@@ -252,6 +298,39 @@ theorem reload_resave_fields {o : Obj} {os : OStream} {r : SaveRes} {hd : Bytes}
   rw [Nat.mod_eq_of_lt hin.nsegs] at n2
   exact ⟨r2, hload, hok2, n1, n2, f1, f2⟩
 
+/-- **loaded_satisfies_Loaded_flat** / **reload_resave_fields_flat** (C05) : flat writer-domain objects,
+    hypotheses on the input object only (plus `NoWrap64`): the eager reload satisfies `C05.Loaded`, and
+    reports the fields and data put into the object before the save. -/
+theorem loaded_satisfies_Loaded_flat {o : Obj} {os : OStream} {r : SaveRes} {hd : Bytes}
+    (hs : save o os = .ok r) (hok : r.ok = true) (hg : os.Good) (hos : os.content.length < 9223372036854775808)
+    (D : FlatDomain o hd) (hw : NoWrap64 r.obj.secs r.obj.segs)
+    (o2 : Obj) (k : StreamKind) (htr2 : o2.trans = []) :
+    ∃ r2 : LoadRes, load o2 { data := r.os.content, kind := k } false = .ok r2 ∧ r2.ok = true ∧
+      r2.obj.cls = o.cls ∧ r2.obj.enc = o.enc ∧ r2.obj.trans = [] ∧ r2.obj.hdr = r.obj.hdr ∧
+      C05.Loaded o.cls o.enc r2.obj.secs r2.obj.segs r.os.content := by
+  obtain ⟨hF, hhF, hl, hsm, hnwrap⟩ := D.toComposeDomain.writer hs hok hos hw
+  exact loaded_satisfies_Loaded hs hok hg D.tr D.hdr D.input D.nw hsm hhF hl
+    (savedSane_flat hs hok D.hdr D.input D.nw D.dom D.noPhdr hnwrap) o2 k htr2
+
+theorem reload_resave_fields_flat {o : Obj} {os : OStream} {r : SaveRes} {hd : Bytes}
+    (hs : save o os = .ok r) (hok : r.ok = true) (hg : os.Good) (hos : os.content.length < 9223372036854775808)
+    (D : FlatDomain o hd) (hw : NoWrap64 r.obj.secs r.obj.segs)
+    (o2 : Obj) (k : StreamKind) (htr2 : o2.trans = []) :
+    ∃ r2 : LoadRes, load o2 { data := r.os.content, kind := k } false = .ok r2 ∧ r2.ok = true ∧
+      r2.obj.secs.length = o.secs.length ∧ r2.obj.segs.length = o.segs.length ∧
+      (∀ (i : Nat) a b2, o.secs[i]? = some a → r2.obj.secs[i]? = some b2 →
+        b2.nameOff = a.nameOff ∧ b2.stype = a.stype ∧ b2.flags = a.flags ∧ b2.size = a.size ∧ b2.link = a.link ∧
+        b2.info = a.info ∧ b2.addrAlign = a.addrAlign ∧ b2.entSize = a.entSize ∧ b2.addrSet = true ∧
+        (a.addrSet = true → b2.addr = a.addr) ∧
+        (a.stype ≠ BitVec.ofNat 32 SHT_NOBITS → a.stype ≠ BitVec.ofNat 32 SHT_NULL → a.size ≠ 0 →
+          (∃ d, a.data = some d ∧ a.size.toNat ≤ d.length) → b2.view = a.view)) ∧
+      (∀ (j : Nat) g g2, o.segs[j]? = some g → r2.obj.segs[j]? = some g2 →
+        g2.stype = g.stype ∧ g2.flags = g.flags ∧ g2.vaddr = g.vaddr ∧ g2.paddr = g.paddr ∧
+        g.align.toNat ≤ g2.align.toNat ∧ (o.cls = .c64 → g.memsz.toNat ≤ g2.memsz.toNat)) := by
+  obtain ⟨hF, hhF, hl, hsm, hnwrap⟩ := D.toComposeDomain.writer hs hok hos hw
+  exact reload_resave_fields hs hok hg D.tr D.hdr D.input D.nw hsm hhF hl
+    (savedSane_flat hs hok D.hdr D.input D.nw D.dom D.noPhdr hnwrap) o2 k htr2
+
 /-! ### non-vacuity : concrete objects built with the model's API meet every hypothesis -/
 
 /-- ELF64/LSB: `create`, `sections.add(".text")` (PROGBITS, AX, align 16, 5 bytes of data); no segments -/
@@ -261,8 +340,8 @@ def exNosegM : M Obj := do
   let o := C06.updSec o 2 fun b => { b with stype := 1, flags := 6, addrAlign := 16 }
   C06.updSecM o 2 fun b => b.setData (some [1, 2, 3, 4, 5]) 5
 
-/-- ELF32/MSB: the same plus `.data` (8 bytes, explicit address) and `.bss`-like NOBITS; `.text` and `.data`
-    members of one PT_LOAD (`segments.add`, `add_section_index`) -/
+/-- ELF32/MSB: `.text` as above plus `.data` (8 bytes, explicit address); both members of one PT_LOAD
+    (`segments.add`, `add_section_index`) -/
 def exFlatM : M Obj := do
   let o ← create {} .c32 .msb
   let o ← sectionsAdd o [0x2e, 0x74, 0x65, 0x78, 0x74]
@@ -287,46 +366,35 @@ theorem savedOf_eq (o : Obj) (h : (match save o {} with | .ok _ => true | .error
   | ok r => rfl
   | error e => rw [hs] at h; cases h
 
-/-- all hypotheses of the composition theorems for a concrete object `o` (flat segments; with
-    `o.segs = []` this is the segment-less case) -/
+/-- all hypotheses of the composition theorems for a concrete object `o` saved into an empty stream -/
 structure ExOk (o : Obj) : Prop where
   saved : save o {} = .ok (savedOf o)
   ok : (savedOf o).ok = true
-  hdr : o.hdr = some (o.hdr.getD [])
-  tr : o.trans = []
-  input : SaveInput o (o.hdr.getD [])
-  nw : layoutNW (preSave o) (o.hdr.getD []) = true
-  small : FileSmall o (o.hdr.getD []) {} (savedOf o).obj.curPos
-  dom : layoutDomB false false (fun _ => true) (preSave o) (o.hdr.getD []) = true
-  noPhdr : ∀ g ∈ o.segs, lseg_is_phdr g.stype (BitVec.ofNat 16 g.secs.length) = false
-  hdrF : (savedOf o).obj.hdr = some ((savedOf o).obj.hdr.getD [])
-  layoutOk : C03.LayoutOk (savedOf o).obj.cls (savedOf o).obj.enc ((savedOf o).obj.hdr.getD [])
-    (savedOf o).obj.secs (savedOf o).obj.segs
-  noWrap : SavedNoWrap o.cls (savedOf o).obj.secs (savedOf o).obj.segs
-  null0 : ∀ s ∈ o.secs, s.stype = BitVec.ofNat 32 SHT_NULL → s.size = 0
+  dom : FlatDomain o (o.hdr.getD [])
+  noWrap : NoWrap64 (savedOf o).obj.secs (savedOf o).obj.segs
 
 theorem exNoseg_ok : ExOk (objOf exNosegM) := by
-  refine ⟨savedOf_eq _ (by decide +kernel), by decide +kernel, by decide +kernel, by decide +kernel,
-    ⟨by decide +kernel, by decide +kernel, by decide +kernel, by decide +kernel, by decide +kernel,
-     by decide +kernel, by decide +kernel, by decide +kernel, by decide +kernel, by decide +kernel,
-     by decide +kernel, by decide +kernel, by decide +kernel, by decide +kernel⟩,
-    by decide +kernel, ⟨by decide +kernel, by decide +kernel, by decide +kernel⟩, by decide +kernel,
-    by decide +kernel, by decide +kernel,
-    ⟨by unfold WDisj; decide +kernel, by decide +kernel, by decide +kernel, by decide +kernel⟩,
-    ⟨by decide +kernel, by decide +kernel, by decide +kernel⟩, by decide +kernel⟩
+  refine ⟨savedOf_eq _ (by decide +kernel), by decide +kernel,
+    ⟨⟨by decide +kernel, by decide +kernel,
+      ⟨by decide +kernel, by decide +kernel, by decide +kernel, by decide +kernel, by decide +kernel,
+       by decide +kernel, by decide +kernel, by decide +kernel, by decide +kernel, by decide +kernel,
+       by decide +kernel, by decide +kernel, by decide +kernel, by decide +kernel⟩,
+      by decide +kernel, by decide +kernel, by decide +kernel⟩,
+     by decide +kernel, by decide +kernel, by decide +kernel⟩,
+    ⟨by decide +kernel, by decide +kernel⟩⟩
 
 theorem exFlat_ok : ExOk (objOf exFlatM) := by
-  refine ⟨savedOf_eq _ (by decide +kernel), by decide +kernel, by decide +kernel, by decide +kernel,
-    ⟨by decide +kernel, by decide +kernel, by decide +kernel, by decide +kernel, by decide +kernel,
-     by decide +kernel, by decide +kernel, by decide +kernel, by decide +kernel, by decide +kernel,
-     by decide +kernel, by decide +kernel, by decide +kernel, by decide +kernel⟩,
-    by decide +kernel, ⟨by decide +kernel, by decide +kernel, by decide +kernel⟩, by decide +kernel,
-    by decide +kernel, by decide +kernel,
-    ⟨by unfold WDisj; decide +kernel, by decide +kernel, by decide +kernel, by decide +kernel⟩,
-    ⟨by decide +kernel, by decide +kernel, by decide +kernel⟩, by decide +kernel⟩
+  refine ⟨savedOf_eq _ (by decide +kernel), by decide +kernel,
+    ⟨⟨by decide +kernel, by decide +kernel,
+      ⟨by decide +kernel, by decide +kernel, by decide +kernel, by decide +kernel, by decide +kernel,
+       by decide +kernel, by decide +kernel, by decide +kernel, by decide +kernel, by decide +kernel,
+       by decide +kernel, by decide +kernel, by decide +kernel, by decide +kernel⟩,
+      by decide +kernel, by decide +kernel, by decide +kernel⟩,
+     by decide +kernel, by decide +kernel, by decide +kernel⟩,
+    ⟨by decide +kernel, by decide +kernel⟩⟩
 
-/-- the examples are not trivial: segment-less / one PT_LOAD with two members, three / four sections,
-    304 / 336… bytes written -/
+/-- the examples are not trivial: segment-less with three sections / one PT_LOAD with two members among
+    four sections, laid out at file offset 0x1000 with 0x28 bytes -/
 example : (objOf exNosegM).segs = [] ∧ (objOf exNosegM).secs.length = 3 ∧
     (objOf exFlatM).secs.length = 4 ∧ (objOf exFlatM).segs.map (·.secs) = [[2#16, 3#16]] ∧
     ((savedOf (objOf exFlatM)).obj.segs.map fun g => (g.offset, g.filesz)) = [(0x1000#64, 0x28#64)] := by
@@ -334,37 +402,46 @@ example : (objOf exNosegM).segs = [] ∧ (objOf exNosegM).secs.length = 3 ∧
 
 /-- the composition theorems apply to every object meeting `ExOk` … -/
 theorem ExOk.reload {o : Obj} (h : ExOk o) (o2 : Obj) (k : StreamKind) (isLazy : Bool) (htr2 : o2.trans = []) :
-    ∃ r2 : LoadRes, load o2 { data := (savedOf o).os.content, kind := k } isLazy = .ok r2 ∧ r2.ok = true ∧
-      Reloaded o.cls o.enc ((savedOf o).obj.hdr.getD []) (savedOf o).obj.secs (savedOf o).obj.segs
-        (savedOf o).os.content isLazy r2.obj ∧
+    ∃ (hF : Bytes) (r2 : LoadRes), (savedOf o).obj.hdr = some hF ∧
+      load o2 { data := (savedOf o).os.content, kind := k } isLazy = .ok r2 ∧ r2.ok = true ∧
+      Reloaded o.cls o.enc hF (savedOf o).obj.secs (savedOf o).obj.segs (savedOf o).os.content isLazy r2.obj ∧
       validate r2.obj = [] := by
-  obtain ⟨r2, h1, h2, h3⟩ := reload_reports_saved_flat h.saved h.ok ⟨rfl, rfl⟩ h.tr h.hdr h.input h.nw h.small h.dom
-    h.noPhdr h.hdrF h.layoutOk h.noWrap o2 k isLazy htr2
-  obtain ⟨r2', h1', _, h3'⟩ := validate_silent_reloaded_flat h.saved h.ok ⟨rfl, rfl⟩ h.tr h.hdr h.input h.nw h.small
-    h.dom h.noPhdr h.hdrF h.layoutOk h.noWrap h.null0 o2 k isLazy htr2
+  obtain ⟨hF, r2, h0, h1, h2, h3⟩ := reload_reports_saved_flat h.saved h.ok ⟨rfl, rfl⟩ (by decide) h.dom h.noWrap
+    o2 k isLazy htr2
+  obtain ⟨_, r2', h1', _, h3'⟩ := validate_silent_reloaded_flat h.saved h.ok ⟨rfl, rfl⟩ (by decide) h.dom h.noWrap
+    o2 k isLazy htr2
   rw [h1] at h1'; cases h1'
-  exact ⟨r2, h1, h2, h3, h3'⟩
+  exact ⟨hF, r2, h0, h1, h2, h3, h3'⟩
 
 theorem ExOk.loaded {o : Obj} (h : ExOk o) (o2 : Obj) (k : StreamKind) (htr2 : o2.trans = []) :
     ∃ r2 : LoadRes, load o2 { data := (savedOf o).os.content, kind := k } false = .ok r2 ∧ r2.ok = true ∧
       C05.Loaded o.cls o.enc r2.obj.secs r2.obj.segs (savedOf o).os.content := by
-  obtain ⟨r2, h1, h2, _, _, _, _, L⟩ := loaded_satisfies_Loaded h.saved h.ok ⟨rfl, rfl⟩ h.tr h.hdr h.input h.nw h.small
-    h.hdrF h.layoutOk (savedSane_flat h.saved h.ok h.hdr h.input h.nw h.dom h.noPhdr h.noWrap) o2 k htr2
+  obtain ⟨r2, h1, h2, _, _, _, _, L⟩ := loaded_satisfies_Loaded_flat h.saved h.ok ⟨rfl, rfl⟩ (by decide) h.dom
+    h.noWrap o2 k htr2
   exact ⟨r2, h1, h2, L⟩
 
 /-- … in particular to the two concrete objects (segment-less ELF64/LSB; ELF32/MSB with a PT_LOAD),
-    for every start object, stream kind and load mode -/
+    for every stream kind and load mode -/
 example (k : StreamKind) (isLazy : Bool) :
     ∃ r2 : LoadRes, load {} { data := (savedOf (objOf exNosegM)).os.content, kind := k } isLazy = .ok r2 ∧
       r2.ok = true ∧ validate r2.obj = [] := by
-  obtain ⟨r2, h1, h2, _, h4⟩ := exNoseg_ok.reload {} k isLazy rfl
+  obtain ⟨_, r2, _, h1, h2, _, h4⟩ := exNoseg_ok.reload {} k isLazy rfl
   exact ⟨r2, h1, h2, h4⟩
 
 example (k : StreamKind) (isLazy : Bool) :
     ∃ r2 : LoadRes, load {} { data := (savedOf (objOf exFlatM)).os.content, kind := k } isLazy = .ok r2 ∧
       r2.ok = true ∧ validate r2.obj = [] := by
-  obtain ⟨r2, h1, h2, _, h4⟩ := exFlat_ok.reload {} k isLazy rfl
+  obtain ⟨_, r2, _, h1, h2, _, h4⟩ := exFlat_ok.reload {} k isLazy rfl
   exact ⟨r2, h1, h2, h4⟩
+
+/-- the segment-less theorem on the first example -/
+example (k : StreamKind) (isLazy : Bool) :
+    ∃ (hF : Bytes) (r2 : LoadRes), (savedOf (objOf exNosegM)).obj.hdr = some hF ∧
+      load {} { data := (savedOf (objOf exNosegM)).os.content, kind := k } isLazy = .ok r2 ∧ r2.ok = true ∧
+      Reloaded (objOf exNosegM).cls (objOf exNosegM).enc hF (savedOf (objOf exNosegM)).obj.secs
+        (savedOf (objOf exNosegM)).obj.segs (savedOf (objOf exNosegM)).os.content isLazy r2.obj :=
+  reload_reports_saved_noseg exNoseg_ok.saved exNoseg_ok.ok ⟨rfl, rfl⟩ (by decide) exNoseg_ok.dom.toComposeDomain
+    (by decide +kernel) exNoseg_ok.noWrap {} k isLazy rfl
 
 /-- what `Reloaded` promises for `.data` of the second example: its name, its bytes, and membership
     in the PT_LOAD as recomputed by the specification's rule -/
